@@ -40,6 +40,7 @@ from mashumaro.core.meta.helpers import (
     get_literal_values,
     get_name_error_name,
     get_type_annotations,
+    get_type_origin,
     hash_type_args,
     is_annotated,
     is_class_var,
@@ -1188,10 +1189,18 @@ class CodeBuilder:
         metadata = self.metadatas.get(fname, {})
         alias = self.__get_field_alias(fname, ftype, metadata, config)
         real_type = self.get_real_type(fname, ftype)
+        if is_annotated(ftype):
+            # Annotated[Optional[X], ...] is as nullable as Optional[X]
+            bare_type = get_type_origin(ftype)
+            real_type = get_type_origin(real_type)
+        else:
+            bare_type = ftype
         could_be_none = (
-            ftype in (typing.Any, type(None), None)
+            bare_type in (typing.Any, type(None), None)
             or is_type_var_any(real_type)
-            or is_optional(ftype, self.get_field_resolved_type_params(fname))
+            or is_optional(
+                bare_type, self.get_field_resolved_type_params(fname)
+            )
             or is_optional(real_type)
             or self.get_field_default(fname) is None
         )
